@@ -326,3 +326,21 @@ func (m *Memcall) EventsFrom(from int) []MCEvent {
 	}
 	return out
 }
+
+// ReadableNonZero returns the mapped regions whose pages are currently accessible (not PROT_NONE) and hold at least
+// one non-zero byte. Reading them is safe precisely because they are accessible.
+func (m *Memcall) ReadableNonZero() []MCRegion {
+	m.mu.Lock()
+	defer m.mu.Unlock()
+	var out []MCRegion
+	for _, r := range m.regions {
+		if !r.Mapped || r.Prot == "none" || r.Len == 0 {
+			continue
+		}
+		b := unsafe.Slice((*byte)(unsafe.Pointer(r.Base)), r.Len)
+		if nonZero(b) {
+			out = append(out, *r)
+		}
+	}
+	return out
+}
